@@ -84,6 +84,58 @@ def docstring_free(body):
     return list(body)
 
 
+def memo_dict_sites(fn):
+    """[(if node, cache name, key expr, names the guarded computation reads, enclosing function)] for
+    ``if K not in C: ... C[K] = V`` (or the ``if K in C: .. else: ..`` polarity), C a plain name"""
+    out = []
+    parents = {}
+    for n in ast.walk(fn):
+        for ch in ast.iter_child_nodes(n):
+            parents[ch] = n
+    for n in ast.walk(fn):
+        if not (isinstance(n, ast.If) and isinstance(n.test, ast.Compare) and len(n.test.ops) == 1
+                and isinstance(n.test.ops[0], (ast.In, ast.NotIn)) and isinstance(n.test.comparators[0], ast.Name)):
+            continue
+        cache = n.test.comparators[0].id
+        arm = n.body if isinstance(n.test.ops[0], ast.NotIn) else n.orelse
+        stores = [st for st in arm if isinstance(st, ast.Assign) and len(st.targets) == 1
+                  and isinstance(st.targets[0], ast.Subscript) and isinstance(st.targets[0].value, ast.Name)
+                  and st.targets[0].value.id == cache and ast.unparse(st.targets[0].slice) == ast.unparse(n.test.left)]
+        if len(stores) != 1 or stores[0] is not arm[-1] and not isinstance(arm[-1], ast.Return):
+            continue
+        encl = n
+        while encl in parents and not isinstance(encl, FuncTypes):
+            encl = parents[encl]
+        if not isinstance(encl, FuncTypes):
+            continue
+        # the cache itself lives outside the function that tests it (a closure / module variable)
+        if any(isinstance(x, ast.Name) and x.id == cache and isinstance(x.ctx, ast.Store) for x in own_nodes(encl)):
+            continue
+        reads = {x.id for st in arm for x in ast.walk(st) if isinstance(x, ast.Name) and isinstance(x.ctx, ast.Load)}
+        out.append((n, cache, n.test.left, reads - {cache}, encl))
+    return out
+
+
+def accumulate_guards(fn):
+    """[(if node, key tested, [(store statement, key stored)])] for every ``if K in D: D[K2] += v  else: D[K3] = v``
+    (either polarity): accumulating into a mapping tests the very key it then writes"""
+    out = []
+    for n in ast.walk(fn):
+        if not (isinstance(n, ast.If) and isinstance(n.test, ast.Compare) and len(n.test.ops) == 1
+                and isinstance(n.test.ops[0], (ast.In, ast.NotIn)) and isinstance(n.test.comparators[0], ast.Name)):
+            continue
+        d = n.test.comparators[0].id
+        stores = []
+        for st in list(n.body) + list(n.orelse):
+            tg = st.targets[0] if isinstance(st, ast.Assign) and len(st.targets) == 1 else (
+                st.target if isinstance(st, ast.AugAssign) else None)
+            if isinstance(tg, ast.Subscript) and isinstance(tg.value, ast.Name) and tg.value.id == d:
+                stores.append((st, tg.slice))
+        if len(stores) >= 2 and any(isinstance(st, ast.AugAssign) for st, _ in stores):
+            out.append((n, n.test.left, stores))
+    return out
+
+
 def own_nodes(func):
     """Nodes belonging to the frame of ``func`` (not nested defs/lambdas/classes;
     generator-expression bodies are included - callers that care use frames)."""
